@@ -212,7 +212,7 @@ def run_batch(prop_id, tier, batch_seed, runs=None, workers=None, wall_cap=None,
             muted.append(sig)
             lines.append(f"KNOWN-FINDING: property={prop_id} {open_sigs[sig]['what']}")
             continue
-        rdir = os.path.join(VERIF, "replays", prop_id)
+        rdir = os.path.join(os.environ.get("VERIF_REPLAY_DIR") or os.path.join(VERIF, "replays"), prop_id)
         os.makedirs(rdir, exist_ok=True)
         name = hashlib.sha1(sig.encode()).hexdigest()[:10] + f"-{v['replay']['seed']}.json"
         path = os.path.join(rdir, name)
@@ -295,6 +295,7 @@ def run_batch(prop_id, tier, batch_seed, runs=None, workers=None, wall_cap=None,
             "workers": workers,
             "batch_digest": digest_all,
             "engine_version": ENGINE_VERSION,
+            "library_under_test": _library_path(),
             "runs_with_violation": n_viol_runs,
             "muted_known_findings": muted,
             "new_violation_signatures": [s for s, _, _ in new_violations],
@@ -311,6 +312,12 @@ def run_batch(prop_id, tier, batch_seed, runs=None, workers=None, wall_cap=None,
             json.dump(evidence, f, indent=1, sort_keys=True)
     return {"lines": lines, "violations": new_violations, "harness_errors": harness_errors, "evidence": evidence,
             "results": ok}
+
+
+def _library_path():
+    import commonroad
+
+    return os.path.dirname(os.path.abspath(commonroad.__file__))
 
 
 def replay_file(path):
